@@ -792,6 +792,17 @@ class From:
     """
 
 
+@dataclass
+class _ValuesOfDomainExpression:
+    """
+    The values of an expression that is the domain of a variable, every iteration is an evaluation of its own.
+    """
+    expression: SymbolicExpression
+
+    def __iter__(self):
+        return Variable._values_of_domain_expression_(self.expression)
+
+
 @dataclass(eq=False)
 class Variable(CanBehaveLikeAVariable[T]):
     _name__: str
@@ -870,7 +881,7 @@ class Variable(CanBehaveLikeAVariable[T]):
             if isinstance(domain, HashedIterable):
                 self._domain_ = domain
             if isinstance(domain, SymbolicExpression):
-                new_domain = self._values_of_domain_expression_(domain)
+                new_domain = _ValuesOfDomainExpression(domain)
             elif not is_iterable(domain):
                 new_domain = [HashedValue(domain)]
             new_domain = new_domain or domain
